@@ -942,7 +942,7 @@ def write_evidence(prop, tier, seed, level, coverage, assumptions, wall, nviol):
 # --------------------------------------------------------------------------- C18
 
 C18_PLAN = {
-    "quick": dict(runs=16000, storm_words=4000000, big_inputs=5, depth_chains=256, depth_max=300, scheds=4, cold=128, selftest=192, miri_light=4, miri_full=2, miri_conv=16, shadow=4000, xl_den=4000, budget=900),
+    "quick": dict(runs=16000, storm_words=4000000, big_inputs=5, depth_chains=256, depth_max=300, scheds=4, cold=128, selftest=192, miri_light=8, miri_full=2, miri_conv=16, shadow=4000, xl_den=4000, budget=900),
     "thorough": dict(runs=400000, storm_words=300000000, big_inputs=40, depth_chains=4096, depth_max=1100, scheds=4, cold=2048, selftest=2048, miri_light=192, miri_full=48, miri_conv=192, miri_fit=32, shadow=200000, xl_den=1500, budget=7200),
 }
 
@@ -1269,6 +1269,29 @@ def check_c18(tier, seed):
                    "notes": [f"replay: {BIN} realthreads --seed {seed} --salt {salt} --run-index {idx} (must finish within seconds); ./check.py replay regenerates the scenario from the provenance and runs it under the simulator"]}, open(p, "w"), indent=1)
         log(f"  worker {tag} hung at run index {idx}; the scenario {what}")
         log(f"VIOLATION property=C18 replay={p}")
+    # ---- fallback: when multi-thread executions stall on a blocking std primitive held across a
+    # scheduling point, everything that needs no second simulated thread still applies: the same
+    # batch with ONE simulated thread per scenario (histories, faults, re-entrancy, clock, kept
+    # results, reference passes), and the phases below that run on real threads or single threads
+    single_thread_fallback = False
+    if sim_limited and not real_hangs:
+        single_thread_fallback = True
+        log("[C18] re-running the main batch with one simulated thread per scenario (no second task can block behind the held primitive)")
+        fb = Batch("c18single")
+        for w in range(W):
+            fb.spawn(["c18", "--seed", str(seed), "--salt", str(salt + 50), "--runs", str(plan["runs"]), "--worker", str(w),
+                      "--workers", str(W), "--scheds", "1", "--xl-den", str(plan["xl_den"]), "--max-threads", "1"], f"w{w}", progress=True)
+        outs, hung2 = fb.wait(plan["budget"])
+        for tag, args, idx in hung2:
+            real_hangs += 1
+            p = os.path.join(REPLAYS, f"C18-hang-single-{seed}-{tag}.json")
+            os.makedirs(REPLAYS, exist_ok=True)
+            json.dump({"property": "C18", "class": "hang", "provenance": {"verif_seed": seed, "salt": salt + 50, "run_index": idx or 0, "run_seed": 0, "worker": int(tag[1:]), "workers": W, "sched_index": 0},
+                       "violations": [{"class": "hang", "key": "", "phase": "perturbed", "detail": f"worker {tag} made no progress for {fb.stall_s}s at run index {idx} with a SINGLE simulated thread: a self-deadlock (a lock taken again by a re-entrant caller, or never released after a fault)"}]}, open(p, "w"), indent=1)
+            log(f"  single-thread worker {tag} hung at run index {idx}")
+            log(f"VIOLATION property=C18 replay={p}")
+        batch.cleanup()
+        batch = fb
     agg = dict(runs=0, executions=0, steps=0, switches=0, ops=0, ref_keys=0, overlap_execs=0, nested=0, fresh_build_runs=0,
                hash_seeds=0, maps_created=0, clock_reads=0, clock_sleeps=0, sim_time_ns=0, thread_passes=0)
     clock_seam_workers = sum(1 for o in outs if o.get("clock_seam"))
@@ -1301,7 +1324,7 @@ def check_c18(tier, seed):
     # of the one before) must return what it returns at top level. The coroutine stacks of the
     # simulated threads are too small for that, so the chains run on OS threads with large stacks.
     depth_stats = {"chains": 0, "parses": 0, "deepest": 0, "chains_reaching_their_depth": 0, "by_flavour": {}}
-    if not sim_limited:
+    if True:
         db = Batch("c18depth")
         for w in range(W):
             db.spawn(["depth", "--seed", str(seed * 7 + salt), "--runs", str(plan["depth_chains"]), "--max-depth", str(plan["depth_max"]), "--worker", str(w), "--workers", str(W)], f"w{w}")
@@ -1322,7 +1345,7 @@ def check_c18(tier, seed):
     # ---- a storm of distinct unknown words on one parser per worker: the history axis in its cheapest
     # form (tables that fill up, spill, evict, or take a fingerprint for the key)
     storm_stats = {"words": 0, "parsers": 0}
-    if not sim_limited:
+    if True:
         sbt = Batch("c18storm")
         for w in range(W):
             sbt.spawn(["storm", "--seed", str(seed * 13 + salt), "--words", str(plan["storm_words"]), "--worker", str(w)], f"w{w}")
@@ -1337,10 +1360,10 @@ def check_c18(tier, seed):
         fired["unknown_word_storm"] = storm_stats["words"]
         log(f"[C18] word storm ({time.time() - t0:.0f}s): {storm_stats['words']} distinct unknown words on {storm_stats['parsers']} parsers, probe recipes re-read every 64 words")
     # ---- CPU count / affinity on big inputs
-    aff_viol, aff_stats = (0, {"skipped": "simulated scheduling is blocked"}) if sim_limited else affinity_phase(seed, plan["big_inputs"])
+    aff_viol, aff_stats = affinity_phase(seed, plan["big_inputs"])
     log(f"[C18] cpu affinity ({time.time() - t0:.0f}s): {aff_stats}")
     # ---- new_approx in three call orders
-    apx_viol, apx_stats = (0, {"skipped": "simulated scheduling is blocked"}) if sim_limited else approx_phase(seed, 1)
+    apx_viol, apx_stats = approx_phase(seed, 1)
     log(f"[C18] new_approx order sweep ({time.time() - t0:.0f}s): {apx_stats}")
     # ---- shadow batch: the same simulation against a copy of the library whose std::sync
     # primitives are rewritten to shuttle's, so that every atomic / lock operation inside the
@@ -1349,7 +1372,7 @@ def check_c18(tier, seed):
     shadow_stats = {"rewrites": shadow_info["rewrites"], "files": shadow_info["files"], "executions": 0, "scenarios": 0, "skipped": shadow_err}
     if shadow_err:
         log(f"[C18] shadow batch skipped: {shadow_err}")
-    elif not sim_limited:
+    else:
         sb = Batch("c18shadow")
         for w in range(W):
             sb.spawn(["c18", "--seed", str(seed), "--salt", str(100 + salt), "--runs", str(plan["shadow"]), "--worker", str(w),
@@ -1399,7 +1422,8 @@ def check_c18(tier, seed):
     # builds lazily is first touched inside a perturbed scenario, and process-wide state keyed
     # imprecisely shows up as two fresh processes disagreeing on a reference.
     cold_outs = []
-    n_cold = 0 if sim_limited else plan["cold"]
+    n_cold = plan["cold"]
+    cold_extra = ["--max-threads", "1"] if sim_limited else []
     cold_pairs_compared = 0
     cold_div = 0
     i = 0
@@ -1408,7 +1432,7 @@ def check_c18(tier, seed):
         for j in range(i, min(i + 2 * NCPU, n_cold)):
             for order in ("fwd", "rev"):
                 chunk.spawn(["c18", "--seed", str(seed), "--salt", "3", "--start", str(j), "--runs", "1", "--scheds", "2",
-                             "--ref-order", order, "--dump-refs", os.path.join(chunk.dir, f"refs-{j}-{order}.txt")], f"c{j}{order}", progress=True)
+                             "--ref-order", order, "--dump-refs", os.path.join(chunk.dir, f"refs-{j}-{order}.txt"), *cold_extra], f"c{j}{order}", progress=True)
         o, h = chunk.wait(600)
         for tag, args, idx in h:
             p = os.path.join(REPLAYS, f"C18-hang-cold-{seed}-{tag}.json")
@@ -1516,6 +1540,7 @@ def check_c18(tier, seed):
         "shadow_build": shadow_stats,
         "selftest": st,
         "simulator_limited_by_blocking_primitive": [f"{t}@{i}" for t, i in sim_limited],
+        "single_thread_fallback": single_thread_fallback,
         "runs_per_hour": int(execs / max(sim_wall, 0.001) * 3600),
         "seeds_per_hour": int(agg["runs"] / max(sim_wall, 0.001) * 3600),
         "simulated_time_covered_s": round(agg["sim_time_ns"] / 1e9, 3),
